@@ -177,6 +177,10 @@ class HandlerGen:
                 # `if let Some(x) = opt` : the payload of an optional stream
                 return self.leaves(d.src['expr'], d.src['scope'], ctx, fw, via, depth + 1, event, True)
             return [Leaf('unknown', ctx, expr=e, fw=fw, via=via, event=event)]
+        if k == 'Call' and e['func']['k'] == 'Path' and not e['args'] and e['func']['path']['s'] in (
+                'proc_macro2::TokenStream::new', 'TokenStream::new', 'proc_macro2::TokenStream::default', 'TokenStream::default'):
+            # an empty stream as a value (`if wanted { quote!{..} } else { TokenStream::new() }`): interpolating it adds nothing
+            return [Leaf('empty', ctx, fw=fw, via=via, event=event)]
         if k == 'Call':
             f = e['func']
             if f['k'] == 'Path':
